@@ -282,7 +282,7 @@ Qed.
 Example ex_tree_good : wf leaf_good ex_tree.
 Proof.
   cbn [ex_tree wf]. repeat match goal with |- _ /\ _ => split end; try reflexivity; try discriminate; try exact I.
-  - exact (leaf_good_matrix_const cring_ok_C c1 2 2 _ ltac:(repeat constructor) eq_refl).
+  - apply (leaf_good_matrix_const cring_ok_C c1 2 2); [repeat constructor | reflexivity].
   - apply (leaf_good_scaling cring_ok_C).
   - apply (leaf_good_multiply cring_ok_C); reflexivity.
   - apply (leaf_good_zero cring_ok_C).
